@@ -1160,6 +1160,71 @@ func runSwap() {
 	}
 }
 
+// ------------------------------------------------------------------ runtime kill-date update (MvTime)
+
+// runKillUpdate: the client-side handler of a kill-date update (muxHandleInternal, MvTime /
+// timeKillDate) on a bare client Session under the injected clock, followed by one wait().
+func runKillUpdate() {
+	h := jitterHooks()
+	c2.VerifC19Set(h)
+	cfg.VerifC19SetNow(func() time.Time { return fakeNow })
+	defer c2.VerifC19Set(nil)
+	defer cfg.VerifC19SetNow(nil)
+	ws := c2.VerifC19Waiter()
+	now := int64(2*86400+10*3600) * 1000000000 // Tuesday 10:00:00
+	nowUnix := epoch0.Unix() + now/1000000000
+	sleep := 60 * msNs
+	type upd struct {
+		name string
+		u    int64
+	}
+	ups := []upd{{"zero (clear)", 0}, {"two hours ago", nowUnix - 7200}, {"one second ago", nowUnix - 1}, {"now", nowUnix},
+		{"in one second", nowUnix + 1}, {"in two hours", nowUnix + 7200}, {"1 (1970)", 1}, {"negative", -5}, {"far future", nowUnix + 400*86400}}
+	for _, before := range []*int64{nil, i64p(now + 3600*1000000000), i64p(now - 3600*1000000000)} {
+		for _, up := range ups {
+			var bk time.Time
+			if before != nil {
+				bk = epoch0.Add(time.Duration(*before))
+			}
+			c2.VerifC19SetKill(ws, bk)
+			fakeNow = epoch0.Add(time.Duration(now))
+			stored, err := c2.VerifC19MvTimeKill(ws, up.u)
+			var st *int64
+			if !stored.IsZero() {
+				st = i64p(absNs(stored))
+			}
+			ds = drawScript{}
+			lastReset = lastReset[:0]
+			closing, pan := c2.VerifC19WaitKeepKill(ws, time.Duration(sleep))
+			if pan != nil {
+				panic(fmt.Sprintf("harness: wait() panicked: %v", pan))
+			}
+			now2 := absNs(fakeNow)
+			d := map[string]interface{}{"update": up.name, "update_unix": up.u, "now_unix": nowUnix, "kill_before": bk.Format(time.RFC3339),
+				"kill_stored": stored.Format(time.RFC3339), "handler_error": fmt.Sprint(err), "wait_returned_closing": closing, "wait_returned_at_ns": now2}
+			// oracle: a value other than 0 is the kill date from now on, and the contact loop is not
+			// re-entered after it
+			if up.u != 0 {
+				if stored.IsZero() || stored.Unix() != up.u {
+					out.Fail("a runtime kill-date update with a non-zero value did not become the Session's kill date", "kill-update-not-stored", d)
+				}
+				if !closing && epoch0.Add(time.Duration(now2)).After(time.Unix(up.u, 0)) {
+					out.Fail("after a runtime kill-date update the client went back to its contact loop after the new kill date", "kill-update-not-obeyed", d)
+				}
+			} else if !stored.IsZero() {
+				out.Fail("a kill-date update with value 0 did not clear the kill date", "kill-update-zero-not-cleared", d)
+			}
+			k := kcfgT{Sleep: sleep}
+			sts := "None"
+			if st != nil {
+				sts = "(Some " + vh.Z(*st) + ")"
+			}
+			out.Add(fmt.Sprintf("CKillUpd %s %s %s %s %s %s %s", k.coq(), vh.Z(up.u), sts, vh.Z(sleep), vh.Z(now), vh.Z(now2), vh.B(closing)),
+				"kill-update/mvtime", up.u != 0, d)
+		}
+	}
+}
+
 // ------------------------------------------------------------------ the spawn path
 
 type refuseConn struct{ at []int64 }
@@ -1297,7 +1362,8 @@ func runEffective() {
 	out.Extra("stale_tick_survives_reset", true)
 	for _, ms := range []int64{20, 40, 80} {
 		sleep := time.Duration(ms) * time.Millisecond
-		cc := &slowConn{contact: 3 * sleep, ready: make(chan struct{})}
+		// 2.5 x sleep: the end of the contact does not fall on the grid of the previous period
+		cc := &slowConn{contact: 5 * sleep / 2, ready: make(chan struct{})}
 		old := local.UUID
 		ub := rng.Bytes(len(local.UUID))
 		ub[0] |= 1
@@ -1336,6 +1402,85 @@ func runEffective() {
 			}
 		}
 		out.Add(fmt.Sprintf("CTick %d %d %s", int64(sleep), int64(cc.contact), vh.ZList64(gaps)), "effective-delay/real-time", len(gaps) >= 2, desc)
+	}
+}
+
+// wakeConn: fast contacts; the harness calls Wake() in the middle of the sleep after attempt 1:
+// attempt 2 starts early (that is what Wake is for), the wait AFTER it is undisturbed and must last
+// the whole sleep again (the timer is re-armed, it does not stay on the grid of the interrupted sleep).
+type wakeConn struct {
+	start, end []time.Time
+	sess       *c2.Session
+	ready      chan struct{}
+	wakeAfter  time.Duration
+}
+
+func (c *wakeConn) Connect(x context.Context, a string) (net.Conn, error) {
+	idx := len(c.start)
+	c.start = append(c.start, time.Now())
+	v, err := com.TCP.Connect(x, a)
+	if idx >= 1 {
+		<-c.ready
+	}
+	if idx == 1 {
+		go func(s *c2.Session, d time.Duration) {
+			time.Sleep(d)
+			s.Wake()
+		}(c.sess, c.wakeAfter)
+	}
+	if idx >= 4 {
+		c2.VerifC19CloseNoWait(c.sess)
+	}
+	c.end = append(c.end, time.Now())
+	return v, err
+}
+
+func runWake() {
+	c2.VerifC19Set(nil)
+	cfg.VerifC19SetNow(nil)
+	for _, ms := range []int64{80, 120} {
+		sleep := time.Duration(ms) * time.Millisecond
+		cc := &wakeConn{ready: make(chan struct{}), wakeAfter: sleep * 6 / 10}
+		old := local.UUID
+		ub := rng.Bytes(len(local.UUID))
+		ub[0] |= 1
+		copy(local.UUID[:], ub)
+		ctx, cancel := context.WithCancel(context.Background())
+		s, err := c2.ConnectContext(ctx, logx.NOP, cfg.Static{C: cc, H: srvAddr, S: sleep, J: 0})
+		local.UUID = old
+		if err != nil {
+			cancel()
+			panic("harness: wake scenario: connect: " + err.Error())
+		}
+		cc.sess = s
+		close(cc.ready)
+		select {
+		case <-s.Done():
+		case <-time.After(30 * time.Second):
+			cancel()
+			panic("harness: wake scenario did not end within 30 s")
+		}
+		cancel()
+		// gap 1->2 is the interrupted sleep; gaps 2->3 and 3->4 are undisturbed
+		var gaps []int64
+		var gd []string
+		for i := 1; i <= 3 && i+1 < len(cc.start) && i < len(cc.end); i++ {
+			g := int64(cc.start[i+1].Sub(cc.end[i]))
+			gd = append(gd, fmt.Sprintf("attempt %d started %s after attempt %d ended", i+1, time.Duration(g), i))
+			if i >= 2 {
+				gaps = append(gaps, g)
+			}
+		}
+		desc := map[string]interface{}{"sleep_ns": int64(sleep), "jitter": 0, "work_hours": "none", "wake_called_after_ns": int64(cc.wakeAfter),
+			"history": "attempt 1, Wake() in mid-sleep, attempt 2, undisturbed sleep, attempt 3, undisturbed sleep, attempt 4", "gaps": gd}
+		for _, g := range gaps {
+			if g*10 < int64(sleep)*8 {
+				out.Fail(fmt.Sprintf("jitter is 0 and the sleep is %s, but the undisturbed wait after a sleep that Wake() had cut short lasted only %s", sleep, time.Duration(g)),
+					"effective-delay-shorter-than-sleep-after-wake", desc)
+				break
+			}
+		}
+		out.Add(fmt.Sprintf("CTick %d %d %s", int64(sleep), int64(cc.wakeAfter), vh.ZList64(gaps)), "effective-delay/after-wake", len(gaps) >= 2, desc)
 	}
 }
 
@@ -1443,8 +1588,12 @@ func runKill() {
 	}
 	runSwap()
 	runSpawn()
+	runKillUpdate()
 	out.Extra("kill_e2e_scenarios", e2eRuns)
 	runEffective()
+	if staleTickSurvivesReset() {
+		runWake()
+	}
 }
 
 func main() {
